@@ -15,11 +15,12 @@ ENTRY = "directory::Entry"
 
 
 def dir_decoders(ctx):
-    return [f for f in ctx.user_fns() if any(c["fn"] in VREAD for c in calls(f["body"])) and ctx.has_struct(f, "directory::Directory")]
+    """the function that decodes a directory: reads varints (itself or through column helpers evaluated in place) and builds the Directory"""
+    return [f for f in ctx.user_fns() if f["path"] not in ctx.inlinable and (ctx.calls_inl(f) & set(VREAD)) and ctx.has_struct_inl(f, "directory::Directory")]
 
 
 def dir_encoders(ctx):
-    return [f for f in ctx.user_fns() if any(c["fn"] in VWRITE for c in calls(f["body"])) and "directory::Directory" in (f.get("self_ty") or "")]
+    return [f for f in ctx.user_fns() if f["path"] not in ctx.inlinable and (ctx.calls_inl(f) & set(VWRITE)) and "directory::Directory" in (f.get("self_ty") or "")]
 
 
 def full_ok_paths(fa):
@@ -103,7 +104,7 @@ def r_cols_reader(ctx):
             ok_h = h is not None and is_call_to(h, lambda s: s in factories) and any(is_call_to(t, lambda s: s.endswith("::take")) for t in subterms(h))
             obs.append(Ob("R-COLS", fn, "decode: every column read goes through one decompressor over take(length)", ok_h,
                           "receivers: %s" % "; ".join(tstr(r)[:100] for r in recvs), cnt.loc()))
-            comp_ok = h is not None and V("param:compression") in h[2]
+            comp_ok = h is not None and role_param(fa, f, "compression") in h[2]
             obs.append(Ob("R-COLS", fn, "decode: decompressor built from the `compression` argument", comp_ok, "handle = %s" % (tstr(h)[:120] if h else "?"), cnt.loc()))
             # destinations
             idr, runr, lenr, offr = rd[1:]
@@ -242,8 +243,9 @@ def r_decoder_refusals(ctx):
             v = p.value
             if isinstance(v, tuple) and v and v[0] == "errprop":
                 t = unmut(v[1])
-                if t[0] == "call" or (t[0] == "bin" and t[1] in ("+", "-", "*")):
+                if (t[0] == "call" and t[1] != "core::result::Result::Err") or (t[0] == "bin" and t[1] in ("+", "-", "*")):
                     continue          # a failed read/decompression, or checked arithmetic that overflowed
+                # (`?` applied to an `Err(..)` built by a helper evaluated in place is a refusal of the decoder's own)
             ex = [e for e in p.events if e.kind == "exit"]
             key = ex[-1].node.get("id") if ex else None
             why = rejects_because(p, None, allowed)
@@ -318,7 +320,7 @@ def _check_offrule_reader(fn, fa, p, rd):
     if aff_eq(a, want):
         # the explicit arm must be the exact complement of the contiguous one: the same decision, other outcome
         # a raw value known to be non-zero is an explicit offset whatever else holds; otherwise the arm must be the exact complement of the contiguous one
-        compl = (("ne", val, 0) in facts) or _complement_of_contig(fa, p, rd, e, val, cur, lid)
+        compl = (("ne", val, 0) in facts) or _no_previous_entry(fa, p, cur, lid, facts) or _complement_of_contig(fa, p, rd, e, val, cur, lid)
         obs.append(Ob("R-OFFRULE", fn, "decode: explicit arm = val − 1, taken exactly when the contiguous condition fails", compl, "stored %s" % aff_str(a), e.loc()))
         return obs, "explicit"
     obs.append(Ob("R-OFFRULE", fn, "decode: stored offset is prev.offset + prev.length or val − 1", False, "stored %s" % aff_str(a), e.loc()))
@@ -361,6 +363,28 @@ def _previous_entry(fa, p, cur, lid, facts):
                 if len(somes) >= 1 and len(nones) >= 1 and len(somes) + len(nones) == len(srcs) and own_ok and all(_pair_of(s[2][0], cur, None) for s in somes):
                     return ("prevpair", base)
     return None
+
+
+def _no_previous_entry(fa, p, cur, lid, facts):
+    """this path has established that there is NO entry before `cur`: index 0, or the loop-carried Option that carries the previous entry
+    (validated like in _previous_entry: its sources are None and Some(the entry / pair just completed)) is known to be None"""
+    if cur[0] == "idx" and cur[2][0] == "elem" and ("eq", cur[2], 0) in facts:
+        return True
+    for f in facts:
+        none_known = f[0] == "variant" and ((f[2] == "core::option::Option::None" and f[3] is True) or (f[2] == "core::option::Option::Some" and f[3] is False))
+        if not none_known:
+            continue
+        base = f[1]
+        while is_call_to(base, lambda s: s.endswith(("::as_ref", "::as_mut", "::as_deref", "::copied", "::cloned"))) and base[2]:
+            base = base[2][0]
+        base = unmut(base)
+        if base[0] == "v" and base[1].startswith("loop%s:" % lid):
+            srcs = [unmut(s_) for s_ in fa.havoc_src.get(base, ())]
+            somes = [s_ for s_ in srcs if is_call_to(s_, lambda x: x == "core::option::Option::Some")]
+            nones = [s_ for s_ in srcs if is_call_to(s_, lambda x: x == "core::option::Option::None")]
+            if somes and nones and len(somes) + len(nones) == len(srcs) and all(_same_entry(s_[2][0], cur) or _pair_of(s_[2][0], cur, None) for s_ in somes):
+                return True
+    return False
 
 
 def _strip_views(t):
@@ -485,7 +509,7 @@ def r_cols_writer(ctx):
                 obs.append(Ob("R-COLS", fn, "encode: %s is %s" % (col["name"], col["int"]), got == col["int"], "%s column written as %s" % (col["name"], got), e.loc()))
             recvs = set(unmut(e.d["args"][0]) for e in wr)
             h = list(recvs)[0] if len(recvs) == 1 else None
-            ok_h = h is not None and is_call_to(h, lambda s: s in factories) and V("param:compression") in h[2]
+            ok_h = h is not None and is_call_to(h, lambda s: s in factories) and role_param(fa, f, "compression") in h[2]
             obs.append(Ob("R-COLS", fn, "encode: every column write goes through one compressor built from `compression`", ok_h,
                           "receivers: %s" % "; ".join(tstr(r)[:100] for r in recvs), cnt.loc()))
             idw, runw, lenw, offw = wr[1:]
@@ -588,16 +612,16 @@ def _entry_of_iter(it, lid, ents, me):
         enum = True
         base = base[2][0]
     mapped = False
-    while is_call_to(base, lambda s: s.endswith(("::into_iter", "::iter", "::map"))):
-        if base[1].endswith("::map"):
-            mapped = True
+    while is_call_to(base, lambda s: s.endswith(("::into_iter", "::iter", "::map", "Iterator::scan"))):
+        if base[1].endswith(("::map", "Iterator::scan")):
+            mapped = True      # (a scan, like a map, yields one value per element of the underlying sequence, in order)
         base = base[2][0]
     if base not in (ents, me):
         return None, None
     if mapped:
         # `entries.iter().map(|e| e.field)`: the loop variable is already the field of the element of the underlying sequence
         inner = it
-        while is_call_to(inner, lambda s: s.endswith("::map")):
+        while is_call_to(inner, lambda s: s.endswith(("::map", "Iterator::scan"))):
             inner = inner[2][0]
         return ("elem", inner, lid), None
     el = ("elem", it, lid)
